@@ -42,7 +42,8 @@ vars == <<cfg, f, fmq, fsq, act, jb, now, mon, env>>
 (* Records *)
 NoLb == [refill |-> 0, interval |-> 0, max |-> 0, balance |-> 0, dl |-> 0]
 NoJob == [sub |-> FALSE, key |-> 0, ttl |-> -1, port |-> FALSE, prio |-> 0, nd |-> FALSE, born |-> 0,
-          st |-> 0, h |-> 0, d |-> 0, why |-> "", acc |-> FALSE, ret |-> FALSE, lost |-> 0, undeliv |-> FALSE]
+          st |-> 0, h |-> 0, d |-> 0, why |-> "", acc |-> FALSE, ret |-> FALSE, lost |-> 0, undeliv |-> FALSE,
+          rleft |-> 0, att |-> 0, seq |-> 0, r0 |-> 0]    \* RetriableMessage: retries left (MessageRetryStrategy::Count), attempts so far
 NoAct == [wid |-> NoW, mb |-> <<>>, run |-> 0, st |-> "none", stop |-> FALSE, kill |-> FALSE, dying |-> FALSE]
 NewWorker(inc, lim, mode) == [inc |-> inc, mq |-> <<>>, cur |-> {}, pend |-> [k \in Keys |-> 0], dr |-> FALSE, lim |-> lim, mode |-> mode]
 Msg(m, a, b, c, g) == [m |-> m, a |-> a, b |-> b, c |-> c, g |-> g]
@@ -56,7 +57,7 @@ Avail(w) == w.cur = {} /\ w.mq = <<>>               \* WorkerProperties::is_avai
 Working(w) == ~Avail(w)
 
 InitMon == [dev |-> {}, exclBad |-> FALSE, fifoBad |-> FALSE, lastStart |-> [k \in Keys |-> 0], hook |-> 0, hookBad |-> FALSE,
-            lost2 |-> FALSE, panic |-> FALSE, qbBad |-> FALSE, qbBad2 |-> FALSE, idleBad |-> FALSE, rrSeen |-> {}, rrN |-> 0, rrBad |-> FALSE, ans |-> <<>>]
+            lost2 |-> FALSE, panic |-> FALSE, qbBad |-> FALSE, qbBad2 |-> FALSE, idleBad |-> FALSE, rrSeen |-> {}, rrN |-> 0, rrBad |-> FALSE, ans |-> <<>>, nseq |-> 0]
 \* the handler record: factory state + scratch fields (fx, dev, born) that are empty between steps
 InitF(n, lim, mode, lb, lbon, fq) ==
   [q |-> <<>>, pool |-> [w \in 0 .. (n - 1) |-> NewWorker(w + 1, IF fq THEN -1 ELSE lim, IF fq THEN "none" ELSE mode)],
@@ -76,7 +77,12 @@ Untrack(p, k) == [p EXCEPT ![k] = IF @ > 0 THEN @ - 1 ELSE 0]
 IncAlive(S, i) == i \in S.born \/ (i \in Incs /\ act[i].st = "alive")
 Disc(S, j, why) == AddFx(S, Fx("disc", j, 0, why))
 Accept(S, j) == AddFx(S, Fx("acc", j, 0, ""))       \* Job::accept  (a no-op once the port was used)
-Reject(S, j) == AddFx(S, Fx("ret", j, 0, ""))       \* Job::reject
+\* job.rs RetriableMessage::drop: a message object that is dropped without `completed()` re-submits itself to the factory
+\* (retry hook, then cast of a new Dispatch) while retries remain and its TTL has not expired
+Retriable(j) == jb[j].rleft > 0 /\ ~(jb[j].ttl >= 0 /\ now - jb[j].born > jb[j].ttl)
+DropJob(S, j) == IF Retriable(j) THEN AddFx(S, Fx("retry", j, 0, "")) ELSE S
+\* Job::reject: back through the acceptance port if there is one, otherwise the job is dropped right here
+Reject(S, j) == DropJob(AddFx(S, Fx("ret", j, 0, "")), j)
 \* first worker id, in HashMap iteration order `ord`, satisfying P
 FirstIn(ord, P(_)) == ord[CHOOSE i \in 1 .. Len(ord) : P(ord[i]) /\ \A i2 \in 1 .. (i - 1) : ~P(ord[i2])]
 
@@ -104,7 +110,7 @@ ShedOldestW(S, w) ==
   IF Len(S.pool[w].mq) <= S.pool[w].lim THEN S
   ELSE LET n == NextLive(S, w) IN
        IF n.j = 0 THEN n.S
-       ELSE ShedOldestW(Disc(SetW(n.S, w, [n.S.pool[w] EXCEPT !.pend = Untrack(@, KeyOf(n.j))]), n.j, "loadshed"), w)
+       ELSE ShedOldestW(DropJob(Disc(SetW(n.S, w, [n.S.pool[w] EXCEPT !.pend = Untrack(@, KeyOf(n.j))]), n.j, "loadshed"), n.j), w)
 
 \* enqueue_job
 EnqueueJob(S, w, j) ==
@@ -223,7 +229,7 @@ TryRouteNext(S, hint, ord) == RouteLoop(ExpireHead(S), hint, ord)
 RECURSIVE ShedOldestQ(_)
 ShedOldestQ(S) ==
   IF Len(S.q) <= S.lim THEN S
-  ELSE LET j == OldestOf(S.q) IN ShedOldestQ(Disc([S EXCEPT !.q = Without(@, j)], j, "loadshed"))
+  ELSE LET j == OldestOf(S.q) IN ShedOldestQ(DropJob(Disc([S EXCEPT !.q = Without(@, j)], j, "loadshed"), j))
 \* maybe_enqueue
 MaybeEnqueue(S, j) ==
   IF S.lim < 0 THEN [Accept(S, j) EXCEPT !.q = QPush(@, j)]
@@ -364,6 +370,11 @@ Ords(S) == IF cfg.routing \in {"keyp", "sticky"} /\ \E k \in Keys : \E w1, w2 \i
 -----------------------------------------------------------------------------
 (* Effects applied to the world, in order *)
 Replied(r) == r.acc \/ r.ret
+\* the record of a job that has just re-submitted itself: a new attempt with one retry less (`sent`: the cast reached the factory)
+\* (`seq`: position in the order of submissions, a re-submission counts as a new one)
+NextAttempt(r, sent, seq) == [r EXCEPT !.st = 0, !.h = 0, !.d = 0, !.why = "", !.lost = 0, !.rleft = @ - 1, !.att = @ + 1, !.undeliv = ~sent, !.seq = seq]
+\* the Dispatch messages a handler's retry effects put into the factory's own mailbox
+Posts(S) == LET r == SelectSeq(S.fx, LAMBDA e : e.e = "retry") IN [i \in 1 .. Len(r) |-> Msg("dispatch", r[i].a, jb[r[i].a].key, "", 0)]
 RECURSIVE ApplyFx(_, _)
 \* W = [act, jb, mon, stopreq]
 ApplyFx(W, fx) ==
@@ -387,6 +398,7 @@ ApplyFx(W, fx) ==
                               !.mon.hook = IF e.c = "draining" THEN 2 ELSE 3]
                [] e.e = "stopself" -> [W EXCEPT !.stopreq = TRUE]
                [] e.e = "ans" -> [W EXCEPT !.mon.ans = Append(@, e.a)]
+               [] e.e = "retry" -> [W EXCEPT !.jb[e.a] = NextAttempt(W.jb[e.a], W.up, W.mon.nseq + 1), !.mon.nseq = @ + 1]
                [] OTHER -> W
        IN ApplyFx(W1, Tail(fx))
 
@@ -431,7 +443,7 @@ RrMon(M, picks, ps) ==
 Clean(S) == [S EXCEPT !.fx = <<>>, !.dev = {}, !.born = {}, !.rr = <<>>]
 \* commit a finished handler record
 Commit(S0, S, m) ==
-  LET W == ApplyFx([act |-> act, jb |-> jb, mon |-> mon, stopreq |-> S.stopreq], S.fx)
+  LET W == ApplyFx([act |-> act, jb |-> jb, mon |-> mon, stopreq |-> S.stopreq, up |-> TRUE], S.fx)
       M1 == StepMon(W.mon, S0, S, m)
       M2 == IF m \in {"adjust", "update", "sup"} /\ S.ps # S0.ps THEN [M1 EXCEPT !.rrSeen = {}, !.rrN = 0] ELSE RrMon(M1, S.rr, S.ps)
   IN /\ f' = Clean([S EXCEPT !.stopreq = W.stopreq])
@@ -443,25 +455,24 @@ FactoryUp == f.up = "run"
 \* the factory handles the message at the head of its mailbox
 FactoryHandle(ord) ==
   /\ FactoryUp /\ fmq # <<>>
-  /\ LET m == Head(fmq) S == Handle(f, m, ord) IN Commit(f, S, m.m)
-  /\ fmq' = Tail(fmq)
+  /\ LET m == Head(fmq) S == Handle(f, m, ord) IN Commit(f, S, m.m) /\ fmq' = Tail(fmq) \o Posts(S)
   /\ UNCHANGED <<cfg, fsq, now>>
 \* the factory handles a supervision event (a worker actor ended)
 FactoryHandleSup(ord) ==
   /\ FactoryUp /\ fsq # <<>>
-  /\ LET e == Head(fsq) S == HandleSup(f, e.inc, ord) IN Commit(f, S, "sup")
+  /\ LET e == Head(fsq) S == HandleSup(f, e.inc, ord) IN Commit(f, S, "sup") /\ fmq' = fmq \o Posts(S)
   /\ fsq' = Tail(fsq)
-  /\ UNCHANGED <<cfg, fmq, now>>
+  /\ UNCHANGED <<cfg, now>>
 \* post_stop: whatever is still queued is reported with Shutdown
 RECURSIVE DiscAllShutdown(_)
-DiscAllShutdown(S) == IF S.q = <<>> THEN S ELSE DiscAllShutdown(Disc([S EXCEPT !.q = Tail(@)], Head(S.q), "shutdown"))
+DiscAllShutdown(S) == IF S.q = <<>> THEN S ELSE DiscAllShutdown(DropJob(Disc([S EXCEPT !.q = Tail(@)], Head(S.q), "shutdown"), Head(S.q)))
 \* the stop the factory sent itself once drained wins over everything else.  post_stop: what is still
 \* queued is reported with Shutdown, the workers are told to stop; what sits in the mailbox is never seen
 FactoryStopBegin ==
   /\ FactoryUp /\ f.stopreq
   /\ LET S1 == DiscAllShutdown(f)
          incs == {f.pool[w].inc : w \in DOMAIN f.pool}
-         W == ApplyFx([act |-> act, jb |-> jb, mon |-> mon, stopreq |-> TRUE], S1.fx)
+         W == ApplyFx([act |-> act, jb |-> jb, mon |-> mon, stopreq |-> TRUE, up |-> FALSE], S1.fx)
      IN /\ f' = Clean([S1 EXCEPT !.up = "stopping"])
         /\ act' = [i \in Incs |-> IF i \in incs THEN [W.act[i] EXCEPT !.stop = TRUE] ELSE W.act[i]]
         /\ jb' = [j \in JobIds |-> IF \E i \in 1 .. Len(fmq) : fmq[i].m = "dispatch" /\ fmq[i].a = j THEN [W.jb[j] EXCEPT !.undeliv = TRUE] ELSE W.jb[j]]
@@ -472,7 +483,7 @@ FactoryStopBegin ==
 FactoryStopEnd ==
   /\ f.up = "stopping"
   /\ \A w \in DOMAIN f.pool : act[f.pool[w].inc].st = "dead"
-  /\ LET W == ApplyFx([act |-> act, jb |-> jb, mon |-> mon, stopreq |-> TRUE], <<Fx("hook", 0, 0, "stopped")>>)
+  /\ LET W == ApplyFx([act |-> act, jb |-> jb, mon |-> mon, stopreq |-> TRUE, up |-> FALSE], <<Fx("hook", 0, 0, "stopped")>>)
      IN f' = [f EXCEPT !.up = "dead"] /\ mon' = W.mon
   /\ UNCHANGED <<cfg, fmq, fsq, act, jb, now>>
 
@@ -480,9 +491,10 @@ FactoryStopEnd ==
 Submit(j, key, ttl, port, prio, nd) ==
   /\ ~jb[j].sub
   /\ jb' = [jb EXCEPT ![j] = [NoJob EXCEPT !.sub = TRUE, !.key = key, !.ttl = ttl, !.port = port, !.prio = prio, !.nd = nd, !.born = now,
-                                          !.undeliv = ~FactoryUp]]
+                                          !.undeliv = ~FactoryUp, !.seq = mon.nseq + 1]]
+  /\ mon' = [mon EXCEPT !.nseq = @ + 1]
   /\ fmq' = IF FactoryUp THEN Append(fmq, Msg("dispatch", j, key, "", 0)) ELSE fmq
-  /\ UNCHANGED <<cfg, f, fsq, act, now, mon>>
+  /\ UNCHANGED <<cfg, f, fsq, act, now>>
 Post(m) == /\ fmq' = IF FactoryUp THEN Append(fmq, m) ELSE fmq
            /\ UNCHANGED <<cfg, f, fsq, act, jb, now, mon>>
 
@@ -494,8 +506,8 @@ WorkerStart(i) ==
      IN /\ act' = [act EXCEPT ![i].mb = Tail(@), ![i].run = j]
         /\ jb' = [jb EXCEPT ![j].st = IF @ < 2 THEN @ + 1 ELSE @]
         /\ mon' = [mon EXCEPT !.exclBad = @ \/ (clash /\ cfg.routing \in {"keyp", "sticky"}),
-                              !.fifoBad = @ \/ (cfg.routing = "keyp" /\ mon.lastStart[k] > j),
-                              !.lastStart[k] = IF j > @ THEN j ELSE @]
+                              !.fifoBad = @ \/ (cfg.routing = "keyp" /\ mon.lastStart[k] > jb[j].seq),
+                              !.lastStart[k] = IF jb[j].seq > @ THEN jb[j].seq ELSE @]
   /\ UNCHANGED <<cfg, f, fmq, fsq, now>>
 \* the job ends: "ok" reports completion; "stopafter" reports completion and then asks its own actor to stop;
 \* "panic"/"err" end the actor; "killmid" = killed while busy
@@ -527,13 +539,27 @@ WorkerClosing(i) ==
 MayDie(i) == act[i].st = "closing" \/ (act[i].st = "alive" /\ (act[i].dying \/ act[i].kill \/ f.up = "dead"))
 WorkerDead(i) ==
   /\ act[i].st \in {"alive", "closing"}
-  /\ LET held == act[i].mb \o (IF act[i].run # 0 THEN <<act[i].run>> ELSE <<>>)
-         hs == {held[x] : x \in 1 .. Len(held)}
-     IN /\ jb' = [j \in JobIds |-> IF j \in hs THEN [jb[j] EXCEPT !.lost = IF @ < 2 THEN @ + 1 ELSE @] ELSE jb[j]]
-        /\ mon' = [mon EXCEPT !.lost2 = @ \/ Cardinality(hs) > 1]
+  /\ LET held == (IF act[i].run # 0 THEN <<act[i].run>> ELSE <<>>) \o act[i].mb     \* the handler's job is dropped first, then the mailbox
+         again == SelectSeq(held, Retriable)                                        \* these re-submit themselves
+         hs == {held[x] : x \in 1 .. Len(held)} \ {again[x] : x \in 1 .. Len(again)}   \* these are lost with the worker
+     IN /\ jb' = [j \in JobIds |-> IF j \in hs THEN [jb[j] EXCEPT !.lost = IF @ < 2 THEN @ + 1 ELSE @]
+                                   ELSE IF \E x \in 1 .. Len(again) : again[x] = j
+                                     THEN NextAttempt(jb[j], FactoryUp, mon.nseq + (CHOOSE x \in 1 .. Len(again) : again[x] = j)) ELSE jb[j]]
+        /\ mon' = [mon EXCEPT !.lost2 = @ \/ Cardinality(hs) > 1, !.nseq = @ + Len(again)]
+        /\ fmq' = IF FactoryUp THEN fmq \o [x \in 1 .. Len(again) |-> Msg("dispatch", again[x], jb[again[x]].key, "", 0)] ELSE fmq
   /\ act' = [act EXCEPT ![i].st = "dead", ![i].mb = <<>>, ![i].run = 0]
   /\ fsq' = IF FactoryUp THEN Append(fsq, [kind |-> "death", inc |-> i]) ELSE fsq
-  /\ UNCHANGED <<cfg, f, fmq, now>>
+  /\ UNCHANGED <<cfg, f, now>>
+\* the same drop seen on its own (trace validation: the retry hook fires while the worker is being torn down, before its end
+\* is published): job j leaves the hands of actor i and re-submits itself
+WorkerRetry(i, j, sent) ==
+  /\ act[i].st \in {"alive", "closing"} /\ (act[i].dying \/ act[i].kill \/ act[i].stop \/ act[i].st = "closing" \/ f.up = "dead")
+  /\ (act[i].run = j \/ \E x \in 1 .. Len(act[i].mb) : act[i].mb[x] = j) /\ Retriable(j)
+  /\ act' = [act EXCEPT ![i].run = IF @ = j THEN 0 ELSE @, ![i].mb = SelectSeq(@, LAMBDA x : x # j)]
+  /\ jb' = [jb EXCEPT ![j] = NextAttempt(@, sent, mon.nseq + 1)]
+  /\ mon' = [mon EXCEPT !.nseq = @ + 1]
+  /\ fmq' = IF sent THEN Append(fmq, Msg("dispatch", j, jb[j].key, "", 0)) ELSE fmq
+  /\ UNCHANGED <<cfg, f, fsq, now>>
 Tick(t) == /\ t >= now /\ now' = t /\ UNCHANGED <<cfg, f, fmq, fsq, act, jb, mon>>
 
 -----------------------------------------------------------------------------
@@ -565,7 +591,7 @@ QueuerNoIdle0 == ~mon.idleBad
 \* holds or has reported but the factory has not yet been told about
 Reported(w, a) == Cardinality({i \in 1 .. Len(fmq) : fmq[i].m = "finished" /\ fmq[i].a = w /\ fmq[i].g = a})
 ViewExact0 == \A w \in DOMAIN f.pool : LET a == f.pool[w].inc IN
-               act[a].st = "alive" => Cardinality(f.pool[w].cur) = Len(act[a].mb) + (IF act[a].run # 0 THEN 1 ELSE 0) + Reported(w, a)
+               (act[a].st = "alive" /\ ~act[a].dying /\ ~act[a].kill) => Cardinality(f.pool[w].cur) = Len(act[a].mb) + (IF act[a].run # 0 THEN 1 ELSE 0) + Reported(w, a)
 \* C15
 QueueBound0 == ~mon.qbBad
 HookOrder == ~mon.hookBad
@@ -579,6 +605,10 @@ PoolConverges0 == (Quiet /\ FactoryUp) =>
 DrainComplete0 == f.up = "dead" => \A j \in JobIds : jb[j].sub => Places(j) = 0
 \* a job refused because of draining never runs
 DrainRefuses == \A j \in JobIds : (jb[j].sub /\ jb[j].why = "shutdown") => (jb[j].h = 0 /\ jb[j].st = 0)
+
+\* RetriableMessage: every re-submission uses up exactly one retry, there are never more than the strategy allows, and an
+\* attempt that was handled to completion is the last one
+RetryBudget == \A j \in JobIds : jb[j].sub => (jb[j].att + jb[j].rleft = jb[j].r0)
 
 \* the same, read with the recorded deviations (DESIGN §6 items 2 and 3)
 LostOnePerDeath == LostOnePerDeath0 \/ Stale
@@ -600,6 +630,8 @@ NeverStale == ~Stale
 NeverDrainingSlotReplaced == "DrainingSlotReplaced" \notin mon.dev
 NeverExclBad == ~mon.exclBad
 NeverDrained == f.up # "dead"
+NeverRetried == \A j \in JobIds : jb[j].att = 0
+NeverExhausted == \A j \in JobIds : ~(jb[j].r0 > 0 /\ jb[j].rleft = 0 /\ jb[j].lost > 0)
 NeverClosedCastFails == "ClosedWorkerQueueOverLimit" \notin mon.dev
 NeverParked == "ParkedJobNotSticky" \notin mon.dev
 NeverClosing == \A a \in Incs : act[a].st # "closing"
